@@ -45,8 +45,8 @@ def guard_free(name, model, opts):
     return True
 
 
-def make(rng, tier, tied_stratum=None, large=None, int_start=None):
-    name = int_start or large or tied_stratum or NAMES[int(rng.integers(0, len(NAMES)))]
+def make(rng, tier, tied_stratum=None, large=None, int_start=None, offset=False, reuse_dim=None):
+    name = reuse_dim or ('gmm' if offset else None) or int_start or large or tied_stratum or NAMES[int(rng.integers(0, len(NAMES)))]
     K = int(rng.integers(2, 4))
     D = int(rng.integers(2, 5))
     N = 4 * K * D + int(rng.integers(0, 12))
@@ -61,6 +61,11 @@ def make(rng, tier, tied_stratum=None, large=None, int_start=None):
     if large:
         lead = () if name != 'gcacgmm' else (1,)
     data = mm.make_data(rng, name, K, D, N, lead, separation=float(rng.choice([1.0, 2.5, 5.0])))
+    if offset:
+        # features far from the origin (|mean| >> spread, e.g. un-centred log-energies or frequencies in Hz): class structure
+        # unchanged, but second moments minus squared means would cancel
+        data = dict(data)
+        data['y'] = data['y'] * float(rng.uniform(0.1, 0.5)) + rng.uniform(1.0, 3.0, size=(D,)) * 1e6
     if large:
         # the scene changes late in the recording (sources move): the last quarter comes from other class parameters
         nt_ = N % 16384
@@ -97,6 +102,10 @@ def make(rng, tier, tied_stratum=None, large=None, int_start=None):
     iters = int(rng.integers(3, 13)) if tier == 'quick' else int(rng.integers(3, 51))
     if tier == 'quick' and 'saliency' in o and lead and rng.random() < 0.6:
         iters = int(rng.integers(20, 36))        # late-iteration decreases need a longer history
+    if offset:
+        o['covariance_type'] = ['full', 'diagonal', 'spherical'][_COUNT[0] % 3]
+        o.pop('saliency', None)
+        iters = int(rng.integers(25, 36))
     if int_start:
         # vote counts as start, a saliency with a wide spread, a long history
         o['saliency'] = rng.uniform(0.05, 3.0, size=(*lead, N))
@@ -107,6 +116,8 @@ def make(rng, tier, tied_stratum=None, large=None, int_start=None):
         o['saliency'] = np.floor(rng.uniform(1, 4, size=(*lead, N))) * 10.0 ** rng.uniform(-1.5, 1.5, size=(*lead, 1))
         iters = int(rng.integers(25, 36))
     rp = {'model': name, 'data': {k: v for k, v in data.items() if k != 'labels'}, 'init': init, 'opts': o, 'iterations': iters}
+    if reuse_dim:
+        rp['reuse_dim'] = D + 3
     label = 'EM ascent %s K=%d D=%d N=%d lead=%s iters=%d init=%s opts=%s' % (name, K, D, N, lead, iters, init.dtype, mm.describe_options(o))
     fail, key, coq, nt = evaluate(rp, rng)
     return Case(label, coq=coq, pred_fail=fail, key=key, nontrivial=nt, digest_=core.digest(label, init, *rp['data'].values()),
@@ -124,7 +135,19 @@ def evaluate(rp, rng):
     lead = init.shape[:-2]
     sal = np.asarray(o['saliency']) if o.get('saliency') is not None else np.ones((*lead, N))
     try:
-        model, trace = mm.fit(name, data, init, iterations=rp['iterations'], **o)
+        T = None
+        if rp.get('reuse_dim'):
+            # the trainer object served a recording with another number of channels before; it may refuse the new one
+            # with an explicit exception, but if it fits, EM must still ascend
+            T = mm.trainer_cls(name)()
+            r0 = np.random.default_rng(rp['reuse_dim'])
+            N0 = 40
+            y0 = mm.crandn(r0, (N0, rp['reuse_dim'])) if name != 'gmm' else r0.normal(size=(N0, rp['reuse_dim']))
+            try:
+                T.fit(y0, initialization=mm.make_init(r0, K, N0, (), 'positive'), iterations=2)
+            except Exception:
+                pass
+        model, trace = mm.fit(name, data, init, iterations=rp['iterations'], trainer=T, **o)
     except Exception as e:
         if core.deliberate_exception(e):
             # a class collapsed (sklearn's ill-defined covariance) or a finiteness assertion fired: the trajectory left
@@ -186,6 +209,10 @@ def cases(rng, tier):
     out = [make(rng, tier) for _ in range(n)]
     for i in range(8 if tier == 'quick' else 60):
         out.append(make(rng, tier, tied_stratum=['cacgmm', 'cwmm', 'gmm', 'gcacgmm'][i % 4]))
+    for i in range(3 if tier == 'quick' else 12):
+        out.append(make(rng, tier, offset=True))
+    for i in range(3 if tier == 'quick' else 9):
+        out.append(make(rng, tier, reuse_dim=['cwmm', 'cacgmm', 'gmm'][i % 3]))
     for i in range(5 if tier == 'quick' else 20):
         out.append(make(rng, tier, int_start=['gmm', 'gmm', 'cacgmm', 'gmm', 'cwmm'][i % 5]))
     for i in range(4 if tier == 'quick' else 15):
